@@ -167,6 +167,66 @@ func registerStubs(m map[string]Intrinsic) {
 		st.extra[k] = &TupleV{E: append(append([]Value{}, items...), ci.Args[1])}
 		return val(nil)
 	}
+	// sync.Map with concrete keys: an association list kept beside the object
+	smKey := func(ci *CallInfo) string { return "syncmap:" + ci.Args[0].(*Ptr).key() }
+	smGet := func(st *State, k string) []Value {
+		if t, ok := st.extra[k].(*TupleV); ok {
+			return t.E
+		}
+		return nil
+	}
+	smFind := func(e *Exec, items []Value, key Value) int {
+		for i := 0; i+1 < len(items); i += 2 {
+			eq := e.valuesEqual(items[i], key)
+			if eq.IsTrue() {
+				return i
+			}
+			if !eq.IsFalse() {
+				unsupportedf("sync.Map with symbolic key")
+			}
+		}
+		return -1
+	}
+	m["(*sync.Map).Load"] = func(e *Exec, st *State, ci *CallInfo) Outcome {
+		items := smGet(st, smKey(ci))
+		if i := smFind(e, items, ci.Args[1]); i >= 0 {
+			return val(tuple(items[i+1], e.C.True))
+		}
+		return val(tuple(nilIface, e.C.False))
+	}
+	m["(*sync.Map).Store"] = func(e *Exec, st *State, ci *CallInfo) Outcome {
+		k := smKey(ci)
+		items := append([]Value{}, smGet(st, k)...)
+		if i := smFind(e, items, ci.Args[1]); i >= 0 {
+			items[i+1] = ci.Args[2]
+		} else {
+			items = append(items, ci.Args[1], ci.Args[2])
+		}
+		st.extra[k] = &TupleV{E: items}
+		if st.frameMon != nil && st.heap[ci.Args[0].(*Ptr).Obj].Epoch < st.frameMon.epoch {
+			e.Res.Violations = append(e.Res.Violations, Violation{Msg: "frame[" + st.frameMon.label + "]: store into a pre-existing sync.Map", Inputs: e.InputsUnder(st, e.pathModel(st))})
+		}
+		return val(nil)
+	}
+	m["(*sync.Map).LoadOrStore"] = func(e *Exec, st *State, ci *CallInfo) Outcome {
+		k := smKey(ci)
+		items := append([]Value{}, smGet(st, k)...)
+		if i := smFind(e, items, ci.Args[1]); i >= 0 {
+			return val(tuple(items[i+1], e.C.True))
+		}
+		items = append(items, ci.Args[1], ci.Args[2])
+		st.extra[k] = &TupleV{E: items}
+		return val(tuple(ci.Args[2], e.C.False))
+	}
+	m["(*sync.Map).Delete"] = func(e *Exec, st *State, ci *CallInfo) Outcome {
+		k := smKey(ci)
+		items := append([]Value{}, smGet(st, k)...)
+		if i := smFind(e, items, ci.Args[1]); i >= 0 {
+			items = append(items[:i], items[i+2:]...)
+			st.extra[k] = &TupleV{E: items}
+		}
+		return val(nil)
+	}
 	m["sync/atomic.AddInt32"] = func(e *Exec, st *State, ci *CallInfo) Outcome {
 		p := ci.Args[0].(*Ptr)
 		nv := e.C.Add(st.load(p).(*sym.Term), ci.Args[1].(*sym.Term))
